@@ -3658,7 +3658,12 @@ func restartSubtree(ctx context.Context, node *restartNode, parent *PID, tree *t
 		return fmt.Errorf("actor=(%s) failed to restart: %w", pid.Name(), err)
 	}
 
-	pid.schedState.reset()
+	// The dispatch state is deliberately left alone here. The actor has been
+	// running (and tell-able) since init above, so a worker may already own a
+	// turn; forcing the state back to Idle at this point would let the next
+	// Tell schedule the actor a second time and two workers would run its
+	// handler concurrently. The state machine is self-consistent without it:
+	// the wait loop above only guarantees that no worker held the actor then.
 	pid.setState(suspendedState, false)
 	pid.startPassivation()
 
